@@ -10,6 +10,28 @@ C12_FAST = [f"rt_{w}" for w in W] + [f"pair_{w}" for w in W] + ["rt_f32", "rt_f6
 C12_WIDE = ["pair_u128", "pair_i128"]
 
 PROPS = {
+    "C13": {
+        "expand": [("hash_fix", "hash_expanded.rs")],
+        "verus": ["c13_framing", "c13_derive"],
+        "kani": [
+            {"crate": "c13", "kind": "complete", "harnesses": ['f32_nan_normalised_else_bit_exact', 'f64_nan_normalised_else_bit_exact', 'bool_char_images', 'le_u8', 'le_i8', 'le_u16', 'le_i16', 'le_u32', 'le_i32', 'le_u64', 'le_i64', 'le_u128', 'le_i128', 'le_usize', 'le_isize'], "tiers": ("quick", "thorough"), "jobs": 12,
+             "bound": "none: full-domain symbolic inputs, loop bounded by the byte width"},
+        ],
+        "native": [
+            {"name": "history_free_and_discriminating", "bin": "replay_c13", "crate": "replay", "twice": True, "tiers": ("quick", "thorough"),
+             "bound": "200 seeded rounds of unordered collections built by different insertion orders / capacities / hasher states, ownership variants, serialization round trips; pairwise distinctness on fixed universes of framing-trap values; identical digest in two separate processes (seeded SipHash-128)"},
+        ],
+        "witness": witness.c13,
+        "assumptions": [
+            "SipHash-1-3/128 (external crate siphasher) is a function of (seed, byte stream); equal fingerprints mean equal values only up to a 128-bit collision (assumed, not decidable)",
+            "proved (Verus, all values, all instantiations): every ordered StableHash impl under contract appends exactly bytes(v) to the hasher, where bytes is a function of the value's VIEW (Vec: the element sequence, not capacity; Box/Rc/Arc/&: the pointee), and bytes is prefix-free, hence injective, per constructor",
+            "LeImage (to_le_bytes is fixed-width and injective) is an axiom for the Verus unit; the exact little-endian bytes are established on the real code by the Kani harnesses le_*",
+            "Discriminant<T>: the impl is unsafe raw-byte code (external_body): assumed to feed a fixed number of bytes that are equal exactly for the same variant (same compiler); axioms axiom_disc_*",
+            "str/String: bytes = utf8(view); str::len has no vstd spec (rule R14); strings are at most isize::MAX bytes; 64-bit usize",
+            "NOT under contract (rule R7: `sub_hash` takes dyn closures): HashMap/HashSet/BinaryHeap/DashMap/DashSet/ReadOnlyView -- covered only by the bounded run; also BTreeMap/BTreeSet/VecDeque/LinkedList (iterator models), Cow, RangeInclusive, Path/OsStr/CStr, atomics, FlexStr, SmallVec, BitVec, the SipHasher impl and SeededStableHasherBuilder",
+            "write_f32/f64 (NaN normalisation) are not in the Verus unit (no float support): established full-domain by Kani",
+        ],
+    },
     "C14": {
         "verus": ["c14_ids"],
         "kani": [],
